@@ -52,6 +52,10 @@ fn run<F: Fixed>(op: &str, a: &[&str]) -> String where F::Bits: Prim {
                 "p_wrapping_2" => val(F::wrapping_from_str_binary(s)),
                 "p_wrapping_8" => val(F::wrapping_from_str_octal(s)),
                 "p_wrapping_16" => val(F::wrapping_from_str_hex(s)),
+                "p_wtype_10" => val(s.parse::<substrate_fixed::Wrapping<F>>().map(|w| w.0)),
+                "p_wtype_2" => val(substrate_fixed::Wrapping::<F>::from_str_binary(s).map(|w| w.0)),
+                "p_wtype_8" => val(substrate_fixed::Wrapping::<F>::from_str_octal(s).map(|w| w.0)),
+                "p_wtype_16" => val(substrate_fixed::Wrapping::<F>::from_str_hex(s).map(|w| w.0)),
                 "p_overflowing_10" => pair(F::overflowing_from_str(s)),
                 "p_overflowing_2" => pair(F::overflowing_from_str_binary(s)),
                 "p_overflowing_8" => pair(F::overflowing_from_str_octal(s)),
